@@ -108,6 +108,8 @@ def parse_off(s):
 
 def check_max(db, ctx, path, w, op):
     f, E, err = K.evaluate(db, path)
+    if E is not None:
+        E = K.bump_view(E)
     if E is None:
         ctx.fail('R7.1', f, 'lane evaluation', f'reason=unrecognised-shape: {err}')
         return
@@ -258,6 +260,8 @@ def collect_leaves(t, op, H, w, out):
 def check_argmax(db, ctx, path, w_val, w_idx, kind):
     """kind: 'f32' | 'u8'."""
     f, E, err = K.evaluate(db, path)
+    if E is not None:
+        E = K.bump_view(E)
     if E is None:
         ctx.fail('R7.2', f, 'lane evaluation', f'reason=unrecognised-shape: {err}')
         return
@@ -364,6 +368,8 @@ def check_argmax(db, ctx, path, w_val, w_idx, kind):
 
 def check_argmax_sse2(db, ctx):
     f, E, err = K.evaluate(db, SSE2 + 'argmax_sse2')
+    if E is not None:
+        E = K.bump_view(E)
     if E is None:
         ctx.fail('R7.2', f, 'lane evaluation', f'reason=unrecognised-shape: {err}')
         return
@@ -482,6 +488,9 @@ def epilogue_candidates(db, f):
         t, lo = c[3], c[2][1]
     else:
         return f'the column of a candidate is {X.show(c, 60)}, not its position t', None
+    # (x viewed as a slice of its whole self is x)
+    if r[0] == 'at' and r[1][0] == 'call' and r[1][1].endswith(('GenericArray::as_slice', 'array::as_slice', 'GenericArray::as_ref')) and len(r[1][2]) == 1:
+        r = ('at', norm(r[1][2][0]), r[2])
     if not (r[0] == 'at' and r[2] == c and r[1][0] == 'v' and f.local_ty(r[1][1]).startswith(('[', 'generic_array::GenericArray'))):
         return f'the row of candidate t is {X.show(r, 60)}, not x[t] for the spilled index array x', None
     xs = r[1]
